@@ -45,6 +45,10 @@ func profile() *vtx.Profile {
 			ev = append(ev, vtx.Event{K: "alloc", C: "c1", L: 1, Fail: "gen"}, vtx.Event{K: "alloc", C: "c1", L: 2, Fail: "quota"})
 			// refused Refresh requests (address family mismatch): must change nothing
 			ev = append(ev, vtx.Event{K: "refresh", C: "c1", L: 0, Fam: 6}, vtx.Event{K: "refresh", C: "c1", L: 3000, Fam: 6})
+			if m.Allocs["c1"] != nil {
+				// Refresh 0 whose relay socket cannot be closed (its Close fails once): the allocation is gone all the same
+				ev = append(ev, vtx.Event{K: "refresh", C: "c1", L: 0, Fail: "closeerr"})
+			}
 			ev = append(ev, vtx.Event{K: "perm", C: "c1", Peers: []string{"A"}, L: -1},
 				vtx.Event{K: "chan", C: "c1", N: 0x4000, Peers: []string{"A"}, L: -1})
 			ev = append(ev, vtx.AdvanceMenu(m, now, []time.Duration{time.Nanosecond, time.Second}, []time.Duration{31 * time.Second})...)
